@@ -287,8 +287,9 @@ R6_TABLE = [
     (r'\.map_or\(0, Bytes::len\)', '.vx_map_or_0_len()'),
     (r'\(\*cb\)\(', 'cb.vx_call('),
     (r'\|_\|', '|_vx0|'),
-    (r'\btopic\.is_empty\(\)', 'vx_str_is_empty(topic)'),
-    (r'\btopic\.bytes\(\)', 'vx_str_bytes(topic)'),
+    (r'([\w.]+(?:\([^()]*\))?(?:\.unwrap\(\))?)\.as_str\(\) != ([\w.]+)\.as_str\(\)', r'!vx_bstr_eq(\1.vx_b(), \2.vx_b())'),
+    (r'(?<![\w.])topic\.is_empty\(\)', 'vx_str_is_empty(topic)'),
+    (r'(?<![\w.])topic\.bytes\(\)', 'vx_str_bytes(topic)'),
     (r'&src\.as_ref\(\)\[0\.\.4\] == MQTT', 'vx_starts_with_mqtt(src)'),
     (r'\bu8::from\(((?:self|will|pkt|publish)\.(?:no_local|retain_as_published|dup|retain|session_present))\)', r'vx_u8_from_bool(\1)'),
     (r'Box<dyn Fn\(([^()]*)\)>', r'VxBoxFn<(\1)>'),
@@ -364,6 +365,46 @@ def rule_R15_or_pattern_ref_mut(text, log):
         out = out[:mm.start()] + new + out[cb + 1:]
 
 
+def rule_R17_hashmap_entry(text, log):
+    """match M.entry(K) { Entry::Occupied(mut e) => A, Entry::Vacant(v) => B }
+       ->  if M.contains_key(&K) A[e.get() := M.get(&K).unwrap(), e.insert(x) := M.insert(K, x)] else B[v.insert(x) := M.insert(K, x)]
+    (definition of the HashMap entry API for a Copy key; the values returned by insert are not used)"""
+    out = text
+    rx = re.compile(r'\bmatch\s+([\w.]+)\.entry\((\w+)\)\s*\{')
+    while True:
+        mask = code_mask(out)
+        mm = next((m for m in rx.finditer(out) if mask[m.start()]), None)
+        if not mm:
+            return out
+        ob = mm.end() - 1
+        cb = match_brace(out, mask, ob)
+        inner = out[ob + 1:cb]
+        imask = mask[ob + 1:cb]
+        arms = []
+        for am in re.finditer(r'(?:std::collections::hash_map::)?Entry::(Occupied|Vacant)\(\s*(?:mut\s+)?(\w+)\s*\)\s*=>\s*\{', inner):
+            if not imask[am.start()]:
+                continue
+            b0 = am.end() - 1
+            b1 = match_brace(inner, imask, b0)
+            arms.append((am.group(1), am.group(2), inner[b0:b1 + 1]))
+        if len(arms) != 2 or set(a[0] for a in arms) != set(['Occupied', 'Vacant']):
+            raise Unsupported('R17: unexpected shape of match on .entry()')
+        m_, k_ = mm.group(1), mm.group(2)
+        bodies = {}
+        for kind, name, body in arms:
+            b = re.sub(r'\b%s\.get\(\)' % re.escape(name), '%s.get(&%s).unwrap()' % (m_, k_), body)
+            b = re.sub(r'\b%s\.insert\(' % re.escape(name), '%s.insert(%s, ' % (m_, k_), b)
+            if re.search(r'\b%s\b' % re.escape(name), b):
+                raise Unsupported('R17: entry handle used in an unsupported way')
+            bodies[kind] = b
+        new = 'if %s.contains_key(&%s) %s else %s' % (m_, k_, bodies['Occupied'], bodies['Vacant'])
+        # keep the line count: pad with the newlines that were in the match header/footer
+        lost = out[mm.start():cb + 1].count('\n') - new.count('\n')
+        new = new + '\n' * max(lost, 0)
+        log.append(('R17', norm_ws(mm.group(0)), 'if %s.contains_key(&%s) {..} else {..}' % (m_, k_)))
+        out = out[:mm.start()] + new + out[cb + 1:]
+
+
 def rule_R10_inspect_err(text, log):
     """E.inspect_err(|_| { B })  ->  { let vx_r = E; if vx_r.is_err() { B } vx_r }
     (definition of Result::inspect_err for a closure that ignores its argument);
@@ -432,7 +473,7 @@ class Unit(object):
         self.clauses = []           # dict(fn, section, label, props, text)
         self.items = []             # extracted non-fn items
         self.cells = {}             # type -> [fields]
-        self.rules = set(['R1', 'R2', 'ATTR', 'R4', 'R5', 'R6', 'R10', 'R11', 'R14', 'R15'])
+        self.rules = set(['R1', 'R2', 'ATTR', 'R4', 'R5', 'R6', 'R10', 'R11', 'R14', 'R15', 'R17'])
         self.unit_props = []
         self.lemmas = []
         self.tmpl_fns = []          # hand-written exec/proof fns in template (name, props)
@@ -489,6 +530,8 @@ class Unit(object):
                 text = rule_R14_for_ref_pattern(text, log)
             if 'R15' in self.rules:
                 text = rule_R15_or_pattern_ref_mut(text, log)
+            if 'R17' in self.rules:
+                text = rule_R17_hashmap_entry(text, log)
         for r in log:
             self.rule_log.append({'rule': r[0], 'before': r[1], 'after': r[2], 'where': ctx})
         return text
@@ -816,6 +859,17 @@ def expand_macro(unit, it, src, rel):
         out.append('    open spec fn obeys_eq_spec() -> bool { true }')
         out.append('    open spec fn eq_spec(&self, other: &Self) -> bool { *self == *other }')
         out.append('}')
+        if 'PartialOrd' in body:
+            # derive(PartialOrd) on a repr(u8) enum = order of the discriminants; body verified
+            out.append('impl PartialOrd for %s {' % ename)
+            out.append('    fn partial_cmp(&self, other: &Self) -> (r: Option<core::cmp::Ordering>) { %s_to_u8(*self).partial_cmp(&%s_to_u8(*other)) }' % (ename, ename))
+            out.append('}')
+            out.append('impl vstd::std_specs::cmp::PartialOrdSpecImpl for %s {' % ename)
+            out.append('    open spec fn obeys_partial_cmp_spec() -> bool { true }')
+            out.append('    open spec fn partial_cmp_spec(&self, other: &Self) -> Option<core::cmp::Ordering> {')
+            out.append('        if %s_spec_to_u8(*self) < %s_spec_to_u8(*other) { Some(core::cmp::Ordering::Less) } else if %s_spec_to_u8(*self) > %s_spec_to_u8(*other) { Some(core::cmp::Ordering::Greater) } else { Some(core::cmp::Ordering::Equal) }' % (ename, ename, ename, ename))
+            out.append('    }')
+            out.append('}')
         out.append('impl core::convert::From<%s> for u8 {' % ename)
         out.append('    fn from(v: %s) -> (r: u8) ensures r == %s_spec_to_u8(v) { %s_to_u8(v) }' % (ename, ename, ename))
         out.append('}')
@@ -971,7 +1025,7 @@ def emit_block(unit, loc, dlines, tmpl_where):
     if not name or not sig:
         raise Unsupported('%s: //@block needs name and sig' % tmpl_where)
     ma = _find_anchor(body, bmask, a_txt, 0)
-    hits_b = [m for m in re.compile(r'\s*'.join(re.escape(t) for t in b_txt.split())).finditer(body) if bmask[m.start()] and m.start() >= ma.start()]
+    hits_b = [m for m in re.compile(r'\s*'.join(re.escape(t) for t in b_txt.split())).finditer(body) if bmask[m.start()] and m.start() >= ma.end()]
     if not hits_b:
         raise AnchorLost('block end anchor not found: `%s`' % b_txt)
     mb = hits_b[0]
